@@ -101,9 +101,18 @@ func stateEnumBodyEnded(s *Scanner, c byte) *jerr.JApiError {
 	}
 }
 
-func (s *Scanner) readEnumWithJsc() (uint, *jerr.JApiError) {
+func (s *Scanner) readEnumWithJsc() (length uint, je *jerr.JApiError) {
 	fc := s.file.Content()
 	file := fs.NewFile("", fc.Slice(s.curIndex, bytes.Index(fc.Len()-1)))
+
+	defer func() {
+		// The enum scanner of the schema library runs past the end of the data
+		// on some unterminated bodies (i.e. an annotation which isn't closed).
+		if r := recover(); r != nil {
+			length = 0
+			je = s.japiErrorBasic("invalid enum body: unexpected end of file")
+		}
+	}()
 
 	l, err := enum.FromFile(file).Len()
 	if err != nil {
